@@ -239,6 +239,7 @@ struct Coord {
   bool abort = false;
   std::vector<int> parkedAt; // barrier index or -1
   std::vector<char> finished;
+  std::atomic<int> rushArrived{0}; // op "rush": lines are built first, then all parties offer them at the same instant
 };
 
 struct Run {
@@ -288,6 +289,14 @@ void producer(Run& r, int tid, const Json::Value& ops) {
       std::this_thread::sleep_for(std::chrono::microseconds(n));
     } else if (k == "yield") {
       std::this_thread::yield();
+    } else if (k == "rush") {
+      // the line is built before the spin barrier, so that the parties' debugLog calls start within a few hundred ns
+      std::string line = makeLine(tid, seq, n);
+      int parties = op["parties"].asInt();
+      r.co.rushArrived.fetch_add(1);
+      while (r.co.rushArrived.load() < parties && !r.co.abort) {
+      }
+      log.debugLog(std::move(line));
     } else if (k == "raw") {
       log.debugLog(makeLine(tid, seq, n));
     } else if (k == "kmsg") {
